@@ -255,40 +255,69 @@ CHECKS = {
              "retry_differs consequences) are recorded known findings (same root cause as C08's S4/S10/S11). One failing write per database transaction; commit "
              "failures are C08/C11. Trusted: the hand transcription (tie = exact write-count correspondence), go/ast extractor, faultdb, bbolt. No axioms."),
     "C06": dict(
-        text="12 theorems (Print Assumptions closed; coqchk: no axioms). Model Select/Eligible.v transcribed from createtx.go/wallet.go: eligible_one = "
-             "findEligibleOutputs with its tests in code order (allow-filter, confirmed/confirms incl. the -1 and future-height cases, coinbase maturity, lock "
-             "set, address lookup, scope, account); explicit_select = the eligibleByOutpoint loop, parameterised by the regenerated duplicate-test fact; arrange = "
-             "descending sort for largest-first and ANY permutation of the positively yielding subset for random; the prefix-accumulating input source; "
-             "publishing = the Seen event of the transaction-store model; candidates = unspent_outputs of Tx/Store.v. Proved for every chain-consistent history, "
-             "request, lock set, height, permutation and target sequence (using the closed store refinement): every input of a created transaction is a credited "
-             "output of a known transaction with spent_by_known = false and leased = false in the ledger's terms, belongs to the requested account and scope, is "
-             "not locked, has confirms >= minconf and, if coinbase, >= maturity; inputs are duplicate-free (explicit selection: under the regenerated fact, "
-             "C06_refuted_duplicate_selection for the pre-fix code); an explicit selection containing an ineligible outpoint is refused; after Seen t no later "
-             "created transaction (any wallet-side event sequence in between) spends an input of t. Tie to the code: real wallet.Wallet over simchain, a "
-             "77-scenario matrix plus random histories on all four address types and several accounts (coinbase maturity, reorgs, LockOutpoint, LeaseOutput, "
-             "SendOutputs/CreateSimpleTx/SendOutputsWithInput/FundPsbt, explicit selections incl. spent/locked/leased/immature/foreign/unknown/duplicate), each "
-             "request re-evaluated on the model and judged by an independent ledger kept by the harness.",
-        note="Defect S8 found and repaired in two commits (explicit selection, FundPsbt caller inputs); replays run first from corpus/C06. PARTIAL: signature "
-             "validity is not proved - every non-dry-run input is run through txscript.NewEngine(StandardVerifyFlags) with an independent prev-out fetcher; "
-             "txCreator serialisation not modelled; the address manager lookup is a parameter of the model (C03's subject); FundPsbt with caller inputs asserts "
-             "only ownership and single use (callers lease their inputs before funding); FundPsbt+FinalizePsbt on BIP44 P2PKH inputs attaches a witness to a "
-             "non-witness input (ComputeInputScript is documented for witness key spends only) - observation, not asserted. Trusted: go/ast extractor, hooks."),
+        text='16 theorems (Print Assumptions closed; coqchk: none) over the model Select/Eligible.v of findEligibleOutputs + txToOutputs: a key scope is '
+             'the pair (purpose, coin type), an owner records account, scope and whether the private key is held; candidates = credits of the requested '
+             'account AND scope that are unspent by any known confirmed or unconfirmed transaction, not locked, not leased, confirmed at least minconf '
+             'times and mature if coinbase. Proved for every chain-consistent history, request and selection: every automatically selected input is '
+             'eligible; an explicit selection is used as given and an ineligible, spent, leased, foreign, duplicate or unknown explicit input is refused '
+             '(facts rej_dup and req_elig regenerated from the selection loop into Generated/SelectFacts.v; source reader following same-package helpers '
+             'with a 78-scenario behavioural probe fallback; refutation witnesses for either fact false); no output is used twice in one transaction; '
+             'PUBLICATION is a real event linked to a creation (publish_accepted t = [Seen t], publish_rejected t = [Seen t; Abandon t]): after an '
+             'accepted publication and any later events by this wallet, the chain or other wallets that do not displace t (confirmed conflict, detached '
+             'coinbase ancestor, abandon - each with descendants), no later creation selects any input of t, also across a restart '
+             '(C06_published_inputs_never_reused, C06_recorded_inputs_never_reused, C06_wallet_side_events_displace_nothing); a rejected publication '
+             'restores the candidate set (permutation); the sign/skip decision (signed unless dry run or watch-only; the imported account is signed iff '
+             "the wallet holds the key of every input - fix 7cd4d93). Tie to the code: a real wallet.Wallet on bbolt publishing to the harness's own "
+             'VALIDATING node (answers SendRawTransaction from the harness ledger and the script engine); accounts 0..2 in the four default scopes, a '
+             "custom scope (84,1) sharing BIP84's purpose, two watch-only accounts, six imported keys (P2PKH compressed and uncompressed, P2WPKH, nested, "
+             'P2TR; one public-only); 179 systematic scenarios (every ineligible state x {explicit next to a good output, SendOutputsWithInput, automatic '
+             'selection that could only succeed by using it} x every API, the good side of every boundary) + random histories incl. reorgs, third-party '
+             "double spends, restarts, leases with a test clock, 2-3 concurrent SendOutputs; oracle = the harness's own ledger and "
+             'txscript.NewEngine(StandardVerifyFlags) on every input of every result; REFUSED = error AND nothing created, recorded or sent (never the '
+             'error text).',
+        note='Defects found and repaired: S8 duplicate explicit inputs (fix: ad29dfd, 5d1211d) and requests for the imported account never being signed '
+             'although the wallet held every key (fix: 7cd4d93); replays run first from corpus/C06. PARTIAL: signature validity is not a Coq theorem '
+             '(cryptographic): exercised with the real script engine on every input of every signed result for every input kind; concurrency is not '
+             'modelled: racing SendOutputs calls are run and each created transaction is judged against the ledger before the race. Limitations: FundPsbt '
+             'with caller-supplied inputs asserts only ownership and single use (S13); `own` (script -> scope, account, key held) is a parameter of the '
+             "model (C03's subject; the oracle uses an independent BIP32 derivation); the custom scope's coins are credited through the exported TxStore. "
+             'Observations outside the letter of the property, counted in the evidence, not raised: two concurrent SendOutputs select the same coin (the '
+             "serialised section ends before the spend is recorded; 60/60 trials) - 'successive sends'; SendOutputs hands the unsigned result of a "
+             'watch-only ACCOUNT to the backend instead of returning ErrTxUnsigned; FinalizePsbt attaches a witness to a P2PKH input and reports success. '
+             'Trusted: extractor/probe, hooks, harness/cmd/c06/backend.go (the validating node). No axioms.'),
     "C20": dict(
-        text="Model Tx/Publish.v of reliablyPublishTransaction / publishTransaction / resendUnminedTxs over the closed store refinement; which branch removes "
-             "or errors is regenerated from wallet.go (go/ast) into Generated/PublishFacts.v and decided by eq_refl. Proved, unbounded, for every store state "
-             "satisfying Inv (closed over all chain-consistent histories: C20_after_every_history): a rejected or subscription-failed FRESH transaction => error "
-             "result and Inv for the SAME facts, hence every balance (all minconf/sync/time), the spendable set and the unconfirmed set equal the pre-attempt "
-             "ones; already-known/confirmed => the same with success; accepted / already-in-mempool => facts = spec_seen, the tx is unconfirmed exactly once, "
-             "balances equal the ledger's; a refused re-broadcast of a recorded tx => spec_abandon (it and every transitive unconfirmed spender gone, the rest "
-             "stays); fuel never runs out; resend, for both map orders of DependencySort (C14's theorem): the offered list is a permutation of the unconfirmed "
-             "set, each once, parents first. Tie to the code: real wallet + simchain, every answer class at every broadcast and resend position, random histories "
-             "(chained unconfirmed sends, leases, republish of unconfirmed/confirmed/forgotten txs, restarts with VerifResendUnminedTxs and with SynchronizeRPC + "
-             "ClientConnected + RescanFinished); balances, UnspentOutputs and the unmined set compared after every event with model and spec; the order of "
-             "SendRawTransaction calls checked with Kahn.admissible.",
-        note="Defect S9 found and repaired; replay runs first from corpus/C20. Fresh = unknown tx with no unconfirmed spender of its outputs that a node would "
-             "relay (event_ok (Seen t)). PARTIAL: timing of the asynchronous `go resendUnminedTxs()` is exercised, not modelled; failures of walletdb.Update / "
-             "requireChainClient are outside the model. Observation: publishing an already CONFIRMED wallet tx that the backend answers as known/confirmed/"
-             "rejected removes its unconfirmed children (RemoveUnminedTx is called unconditionally). Trusted: go/ast extractor, simchain, id projection. No axioms."),
+        text='Model Tx/Publish.v of reliablyPublishTransaction / publishTransaction / resendUnminedTxs over the closed store refinement. An answer of the '
+             'backend is: no error | an error that Is one of the 45 exported sentinels of package chain (the list AND the branch the code takes for each '
+             'are regenerated into Generated/PublishFacts.v: C20_every_sentinel_listed - a new or differently treated sentinel breaks the obligation - and '
+             'C20_every_answer_by_class: no sentinel gets a treatment of its own) | an error that Is none. 17 theorems, unbounded, for every store state '
+             'satisfying Inv (closed over all chain-consistent histories: C20_after_every_history, C20_over_histories): every rejection-class answer takes '
+             "the remove-and-error branch and the code's branch equals the text's for every answer and subscription outcome "
+             '(C20_every_rejection_removes_and_errors, C20_code_meets_text); a rejected or subscription-failed FRESH transaction => error result and Inv '
+             'for the SAME facts, hence every balance (all minconf/sync/time), the spendable set and the unconfirmed set equal the pre-attempt ones '
+             '(C20_rejected_leaves_no_trace); accepted / already-in-mempool => facts = spec_seen, unconfirmed exactly once (C20_mempool_tx_recorded_once); '
+             "on already-known / confirmed answers only 'kept AND error returned' is excluded (C20_known_or_confirmed_consistent: the text does not demand "
+             'removal there); a refused re-broadcast of a recorded transaction => spec_abandon, it and every transitive unconfirmed spender gone '
+             '(C20_rejected_rebroadcast_forgets_descendants, C20_removal_forgets_descendants); error mapping: every key of the four regenerated MapRPCErr '
+             'tables (bitcoind, bitcoind >= 28, btcd, btcd < 0.24.2) maps to a sentinel of its class, and for every backend and every message containing '
+             "none of the nine 'I already have it' texts every sentinel MapRPCErr can return is a rejection, whatever the Go map iteration order "
+             "(C20_mapping_tables_respect_classes, C20_rejection_text_stays_rejection); resend, for both map orders of DependencySort (C14's theorem): the "
+             'offered list is a permutation of the unconfirmed set, each once, parents first; fuel never runs out. Tie to the code: real wallet + '
+             'simulated backend; every one of the 45 sentinels through PublishTransaction, SendOutputs and a resend position, plain and wrapped (%w); 47 '
+             'ground-truth raw node replies per backend flavour through the REAL chain.BitcoindClient / chain.RPCClient (btcd 0.24.2 and 0.24.0, HTTP to a '
+             'loopback stub node) / NeutrinoClient SendRawTransaction + MapRPCErr; the mapping of every table key (567 rows); a confirmed parent with an '
+             'unconfirmed child refused in six forms; random histories (chained unconfirmed sends, leases, republish of unconfirmed/confirmed/forgotten '
+             'transactions, restarts with VerifResendUnminedTxs and with SynchronizeRPC + ClientConnected + RescanFinished); balances, UnspentOutputs and '
+             "the unmined set compared after every event with model and spec; the oracle judges by what the backend MEANT plus the call's result; the "
+             'order of SendRawTransaction calls checked with Kahn.admissible.',
+        note='Defect S9 found and repaired (fix: 7855d2f); replays run first from corpus/C20. Fresh = unknown transaction with no unconfirmed spender of '
+             "its outputs that a node would relay (event_ok (Seen t)). PARTIAL: the converse mapping direction ('an in-mempool reply IS mapped to "
+             "ErrTxAlreadyInMempool') is exercised, not proved; timing of the asynchronous `go resendUnminedTxs()` is exercised, not modelled; failures of "
+             'walletdb.Update / requireChainClient are outside the model; the source part of the facts about package chain has no behavioural fallback (an '
+             'unreadable table is a broken obligation). Hand-written: accepting_texts (nine) and sentinel_classes (45, checked equal to the regenerated '
+             "list). Observations, not raised: the transaction LABEL written before the broadcast survives a rejection (the text spells 'forgotten' out as "
+             'coins, change, balance, spendable set: a label of an unrecorded transaction is reachable through none); publishing an already CONFIRMED '
+             'wallet transaction that the backend answers as known/confirmed/rejected removes its unconfirmed children. Trusted: go/ast extractors '
+             '(wallet.go branches, chain tables), the stub node, simchain, id projection. No axioms.'),
     "C16": dict(
         text="Model Recovery/Recovery.v of BranchRecoveryState (ExtendHorizon counting invalid children, ReportFound, pruning) / recoverScopedAddresses (explicit "
              "BatchIndex and batch[BatchIndex+1:]) / Resurrect / extendAddresses / addRelevantTx over an abstract chain, and of locateBirthdayBlock (left/right/mid "
@@ -311,22 +340,45 @@ CHECKS = {
              "birthday is creation time minus 48 h); within the +-2h tolerance the search may return a block later than the first block stamped after the birthday "
              "(C16_birthday_within_tolerance_not_first) - coded tolerance, not flagged. Trusted: path-to-address identification, simchain, walletenv. No axioms."),
     "C04": dict(
-        text="Model Addr/Taint.v: every value waddrmgr stores is a list of symbolic terms (Enc keyid t | Hash | Kdf | Clear atom | Cat | Const), atoms classed "
-             "Secret, Passphrase, Sensitive or Public; 17 operations each yield their bucket writes and deletes transcribed from manager.go / scoped_manager.go / "
-             "db.go. 11 theorems for every history and EVERY commit boundary: a passphrase occurs only below a one-way function, a secret only below a sealing under "
-             "cryptoPriv/cryptoScript/masterPriv, a sensitive atom only below a sealing or a hash, the seed and derived address private keys are never written; lock "
-             "and unlock write nothing; after conversion to watching-only and any continuation (reopen included) no row holds private material in any form - outside "
-             "K = histories importing a secret taproot script, with the witness C04_watch_only_residue_at_K (regenerated fact wo_strips_taproot); every address row "
-             "survives conversion with its public fields; Unlock answers ErrWatchingOnly for any passphrase and every modelled private call is refused. Tie to the "
-             "code: real waddrmgr and wallet over bbolt; after EVERY committed transaction the whole file (free pages included) is scanned for every secret produced "
-             "so far (raw, hex, base58, WIF, xprv/tprv string, 78-byte serialization), both passphrases incl. old ones, and every sensitive item; every row's shape "
-             "is compared with the model's term, each sealed field classified by trial decryption with keys the harness derives itself (and the all-zero key); "
-             "after conversion and reopen every private accessor and every address is probed.",
-        note="PARTIAL: the raw/serialized-text clause is decided for the listed encodings; crash points = commit boundaries (bbolt's atomic commit trusted); "
-             "strength of secretbox/scrypt/sha256 is symbolic (C17); page cache, swap, process memory out of scope; the transaction-store namespace is not "
-             "modelled (the wallet-level run shows the output script appears in the clear once a transaction is recorded - the property's 'until'). Observations "
-             "not raised (letter of C04 holds): the script crypto key is all-zero (S5), deletePrivateKeys misses adtTaprootScript, conversion does not scrub bbolt "
-             "free pages (old sealed blobs remain until pages are reused). No axioms."),
+        text='Model Addr/Taint.v: every value waddrmgr stores is a list of symbolic terms (Enc keyid t | Hash | Kdf | Clear atom | Cat | Const), atoms '
+             'classed Secret, Passphrase, Sensitive or Public; 17 operations each yield their bucket writes and deletes transcribed from manager.go / '
+             'scoped_manager.go / db.go. WHICH key seals WHAT is not hand-written: every sealed field is sealT T site ctx, and the table T (20 write sites '
+             '-> sealing key, plaintext class) is regenerated from the source (Generated/TaintSites.v; harness/cmd/extract-c04, go/ast: every argument '
+             'that reaches a sealed slot of a db.go put function is traced back to its X.Encrypt(arg), key = identity of X, class = origin of arg; '
+             'behavioural probe fallback). 15 theorems, all for EVERY table passing the decidable check table_ok (secret content only under a '
+             'private-chain key in both readings of the script key, passphrases/seed never sealed, nothing private in a field that survives conversion); '
+             'C04_current_table_ok and C04_all_source_sites_safe discharge that check for the regenerated table and for every stored Encrypt result of the '
+             'package by computation - the obligations a wrong-key edit breaks. For every history and EVERY commit boundary: a passphrase occurs only '
+             'below a one-way function, a secret only below a sealing under cryptoPriv/cryptoScript/masterPriv, a sensitive atom only below a sealing or a '
+             'hash, the seed and derived address private keys are never written; a reader holding the file and only the PUBLIC passphrase (plus the '
+             'all-zero script key in the strict reading) learns no secret atom and no passphrase (C04_public_passphrase_reader_learns_no_secret); lock and '
+             'unlock write nothing; after conversion to watching-only and any continuation (reopen included) no LIVE row holds private material in any '
+             'form (on this tree for every history: regenerated fact wo_strips_taproot = true since fix 71c2e41; for a tree without that case, outside K = '
+             'histories importing a secret taproot script, witness C04_watch_only_residue_at_K); every address row survives conversion with its public '
+             'fields; Unlock answers ErrWatchingOnly for any passphrase and every modelled private call is refused. Tie to the code: real waddrmgr and '
+             'real wallet (create, imports, passphrase changes, received transactions, SendOutputs, failed sends, conversion) over bbolt; after EVERY '
+             'call, committed or refused (wallet level: every commit of any goroutine), the whole file - all namespaces, free pages included - is scanned '
+             'for every secret produced so far (raw, hex, base58, WIF, xprv/tprv string, 78-byte serialization, base64 in any alignment), every passphrase '
+             'incl. old ones, and until a transaction is recorded every sensitive item; every sealed blob of every changed row in every bucket (known '
+             'layouts + anything that opens in an unexplained stretch of a value) is OPENED with keys the harness derives itself from the passphrases '
+             '(public chain mpub->cpub and the all-zero key; private chain mpriv->cpriv/cscript, remembered after conversion) and its PLAINTEXT classified '
+             'by content: no secret may open under a public-chain key, no live row of a watching-only database may hold a blob a remembered private-chain '
+             "key opens to a secret; the facts (slot, key that opens it, plaintext class), the watching-only flag, 'lock/unlock/open change no row' and "
+             'the answers of the reopened watching-only accessors are compared with the model - nothing else (no row counts, lengths or metadata rows; '
+             'unknown rows are judged by the scan).',
+        note='One defect found and repaired (fix: 71c2e41, ConvertToWatchingOnly kept secret taproot scripts; replay runs first from corpus/C04). One '
+             'KNOWN finding, raised and matched on every run: secret scripts are sealed under the all-zero key (Unlock never loads cryptoKeyScript, S5) '
+             'and are readable from the file with no passphrase - no compatible repair; the theorems are proved in both readings of the script key. '
+             'PARTIAL: the raw/serialized-text clause is decided for the listed encodings (sealed values are opened whatever the row); crash points = '
+             "commit boundaries (bbolt's atomic commit trusted); strength of secretbox/scrypt/sha256 is symbolic (C17); page cache, swap, process memory "
+             'out of scope; the transaction store and other namespaces have no symbolic model (byte scan + decrypt-and-classify of the wallet-level runs '
+             'only); freed pages: after conversion the image still holds the CIPHERTEXTS of the deleted private rows (mpriv parameters, cpriv, cscript, '
+             'mhdpriv, ctpriv, account and imported private keys) and the old private passphrase still opens them until bbolt reuses the pages - outside '
+             "the property's letter ('raw or serialized text form'; 'no passphrase unlocks it and no call returns private material'), measured in the "
+             'evidence, not raised; NewScopedKeyManager on a watching-only manager creates an empty scope (not compared). Observation, not raised: '
+             'waddrmgr NewAccountWatchingOnly accepts an extended PRIVATE key and stores it under the public crypto key (caller precondition; '
+             "wallet/import.go rejects it). Trusted additionally: the go/ast sealing-site reader and the harness's trial decryption (snacl of the "
+             'repository). No axioms.'),
     "C08": dict(
         text="Model Addr/MemDisk.v: database rows (account rows with name and next indices, name/id indices, last account, address and used sets, synced-to, the "
              "block-hash window with MaxReorgDepth eviction, start block, birthday, birthday block) and memory (acctInfo cache with last addresses, address cache, "
